@@ -47,10 +47,12 @@ func programCorpus(tier string) func(emit func(progenum.Prog)) {
 			progenum.Comments(1, emit)
 			progenum.Strings(2, 48, emit)
 			mutantProgs(quickMutOps, nil)(emit)
+			mutantPairProgs(quickMutOps, 0, nil)(emit)
 		} else {
 			progenum.Comments(2, emit)
 			progenum.Strings(3, 48, emit)
 			mutantProgs(nil, nil)(emit)
+			mutantPairProgs(nil, 2, nil)(emit)
 		}
 	}
 }
@@ -156,9 +158,9 @@ func runProgramChecks(prop string, args []string) int {
 	}
 	ev.Sample(map[string]interface{}{"id": "shadowB|append|pkgfunc|s0||xs = %s", "source": progenum.ShadowBuiltin("append", "pkgfunc", progenum.Sigs[3], "", "xs = %s").Files[0].Src})
 	ev.Sample(map[string]interface{}{"id": "mutant example", "op": "bareReturn", "note": "testdata function with its results named and `return a, b` turned into `r0, r1 = a, b; return`"})
-	ev.Set("rule", "every program of: maintainers' examples; odd-syntax snippets alone and in ordered pairs; full product name x declaration kind x signature x argument shape x statement context of the shadow family (quick: pairwise reduction on non-first declaration kinds); comment texts start x alphabet^<=k in 7 positions; string constants tokens^<=n; all 1-deviation mutants of the examples (quick: the operator subset aimed at the property's shortcuts). Ill-typed candidates are dropped by go/types. Each surviving program is analysed by all registered checkers on long-lived instances. non-trivial = program on which some checker reported or crashed")
+	ev.Set("rule", "every program of: maintainers' examples; odd-syntax snippets alone and in ordered pairs; full product name x declaration kind x signature x argument shape x statement context of the shadow family (quick: pairwise reduction on non-first declaration kinds); comment texts start x alphabet^<=k in 7 positions; string constants tokens^<=n; all 1-deviation mutants of the examples (quick: the operator subset aimed at the property's shortcuts); all 2-deviation mutants whose two sites lie in the same top-level declaration at most 2 source lines apart with disjoint edits (quick: same line, operator subset). Ill-typed candidates are dropped by go/types. Each surviving program is analysed by all registered checkers on long-lived instances. non-trivial = program on which some checker reported or crashed")
 	if tier == "quick" {
-		ev.Cap("quick tier: reduced contexts for non-first declaration kinds, comment depth 1, string depth 2, mutation operator subset")
+		ev.Cap("quick tier: reduced contexts for non-first declaration kinds, comment depth 1, string depth 2, mutation operator subset, 2-deviation mutants on the same line only")
 	}
 	return ev.Finish()
 }
